@@ -582,15 +582,28 @@ func (g *ProgGen) Stmt(indent, depth int) {
 		v := vs[g.R.Intn(len(vs))]
 		g.feat("assign")
 		e := g.Expr(t, g.O.ExprDepth)
-		if (t == TNums || t == TNumss) && (g.inLoop > 0 || true) && (strings.Contains(e, "+") || strings.Contains(e, "*")) {
+		if (t == TNums || t == TNumss || t == TStrs || t == TAnys) && (strings.Contains(e, "+") || strings.Contains(e, "*")) {
 			// an array assigned a concatenation or repetition of arrays grows geometrically when the
 			// statement is executed repeatedly (in a loop, or in a function called from one): programs
 			// that need astronomical time and memory say nothing about the properties
-			for _, a := range append(g.varsOf(TNums), g.varsOf(TNumss)...) {
+			for _, a := range append(append(append(g.varsOf(TNums), g.varsOf(TNumss)...), g.varsOf(TStrs)...), g.varsOf(TAnys)...) {
 				if strings.Contains(e, a.name) {
 					e = g.literal(t, 1)
 					break
 				}
+			}
+		}
+		if t == TStr {
+			// a string assigned an expression that mentions string variables twice (s + s, replace s "a" s)
+			// doubles or squares its length on every execution: a handful of loop iterations ask the host
+			// for terabytes (the recorded C02 finding data-growth-exhausts-host-memory), which kills an
+			// in-process harness
+			mentions := 0
+			for _, a := range g.varsOf(TStr) {
+				mentions += strings.Count(e, a.name)
+			}
+			if mentions >= 2 {
+				e = g.literal(t, 1)
 			}
 		}
 		g.w(indent, v.name+" = "+e)
